@@ -200,3 +200,236 @@ Example C19_wrapped_height_examples :
   /\ wrapped_height (mkline KBar (t "123456")) 5 = 2 /\ wrapped_height (mkline KBar (t "1234567890")) 5 = 2
   /\ wrapped_height (mkline KBar (t "x")) 1 = 1.
 Proof. vm_compute. repeat split. Qed.
+
+(* ============================================================================================
+   Bottom alignment (MultiProgressAlignment::Bottom, Draw.paint_pad after fix commits 951c29f and
+   8b11f76) and MultiProgress frames.  Proofs: TermBottomProofs.v, TermBottomMulti.v. *)
+From IndModel Require MultiSpec.
+From IndProofs Require Import TermBottomProofs TermBottomMulti.
+
+(** vocabulary: a line vector is its leading Text/Empty lines [text_prefix] followed by the rest
+    [from_bar] (which starts with the first Bar line); the padding of a shrunken Bottom region is
+    on the screen ([bottom_padded]) iff the vector is empty or contains a Bar line *)
+Theorem C19_bottom_vocabulary : forall ls : list line,
+  ls = text_prefix ls ++ from_bar ls
+  /\ Forall (fun l => is_bar l = false) (text_prefix ls)
+  /\ match from_bar ls with [] => True | b :: _ => is_bar b = true end
+  /\ bottom_padded ls = match ls with [] => true | _ => existsb is_bar ls end.
+Proof. exact bottom_vocabulary. Qed.
+Print Assumptions C19_bottom_vocabulary.
+
+(** Bottom alignment while the region does not shrink (full_height >= last_line_count, shift = 0):
+    the same calls, the same count, the same cursor_below flag as Top alignment - every Top
+    theorem (C19_draw_rows_bounded, TermProofs.draw_to_term_spec_top) applies verbatim *)
+Theorem C19_bottom_noshift_is_top : forall (ls : list line) (n : N) (below : bool) (W H : N),
+  n <= visual_line_count ls W ->
+  draw_to_term ls n Bottom below W H = draw_to_term ls n Top below W H.
+Proof. exact draw_to_term_bottom_noshift. Qed.
+Print Assumptions C19_bottom_noshift_is_top.
+
+(** (c) for Bottom alignment, one draw (every line vector, every previous count n, W, H):
+    n' = rows of the painted Bar lines + the counted padding sh; the Bar rows are at most H, hence
+    n' <= H + sh; the region never grows: n' <= max n (bar rows); sh is 0 or n - full_height > 0;
+    the painted lines are the maximal fitting prefix, everything as soon as the Bar lines fit *)
+Theorem C19_draw_rows_bounded_bottom : forall (W H : N) (ls : list line) (n : N) (below : bool),
+  let n' := snd (fst (draw_to_term ls n Bottom below W H)) in
+  let P := painted ls W H 0 in
+  let sh := bottom_shift ls n W H in
+  n' = bar_rows P W + sh /\ bar_rows P W <= H /\ n' <= H + sh
+  /\ n' <= N.max n (bar_rows P W)
+  /\ (sh = 0 \/ (visual_line_count ls W < n /\ sh = n - visual_line_count ls W))
+  /\ (exists rest, ls = P ++ rest
+        /\ match rest with
+           | [] => True
+           | l :: _ => is_bar l = true /\ H < bar_rows P W + wrapped_height l W
+           end)
+  /\ (bar_rows ls W <= H -> P = ls).
+Proof. exact draw_rows_bounded_bottom. Qed.
+Print Assumptions C19_draw_rows_bounded_bottom.
+
+(** (d) one Bottom draw of a shrunken region ON THE TERMINAL, for every W >= 1, H >= 1, the Bar
+    rows fitting H: from [ready (C ++ F)] with |F| = n = last_line_count rows within reach and the
+    cursor where cursor_below says, a draw of [ls] with full_height < n (shift sh = n - full > 0):
+    - exactly the rows F are erased, C is untouched, and C is followed by R = the rows of the leading
+      text lines ++ sh blank rows ++ the rows of the rest (cell for cell the wrapping of the lines;
+      the padding directly above the first Bar line, also for an empty vector; NO padding when
+      there are only text lines);
+    - n' = bar rows + sh (sh not counted without padding); cursor_below' = true exactly for the
+      empty vector, and then the cursor really is at column 0 of row |C| + n, the row below the padded
+      region; otherwise it is wrap-pending at the right edge of the last row;
+    - [ready] again (the next draw starts from the same kind of state) with the reach bookkeeping *)
+Theorem C19_bottom_draw_exact :
+  forall (W H : N) (C F : list (list N)) (t : term) (ls : list line) (n : N) (below : bool),
+  1 <= W -> 1 <= H ->
+  ready (N.to_nat W) (N.to_nat H) (C ++ F) t -> List.length F = N.to_nat n ->
+  (N.to_nat n <= reach t)%nat ->
+  (if below then t_col t = 0%nat else t_col t <> 0%nat) ->
+  visual_line_count ls W < n -> bar_rows ls W <= H ->
+  let sh := n - visual_line_count ls W in
+  let R := bottom_rows W sh ls in
+  let d := draw_to_term ls n Bottom below W H in
+  let t' := run_ops (N.to_nat W) (N.to_nat H) t (fst (fst d)) in
+  snd (fst d) = bar_rows ls W + (if bottom_padded ls then sh else 0)
+  /\ snd d = match ls with [] => true | _ => false end
+  /\ ready (N.to_nat W) (N.to_nat H) (C ++ R) t'
+  /\ (ls = [] -> R = repeat [] (N.to_nat n) /\ t_col t' = 0%nat
+                 /\ t_row t' = (List.length C + N.to_nat n)%nat
+                 /\ reach t' = Nat.min (N.to_nat H - 1) (reach t))
+  /\ (ls <> [] -> t_col t' <> 0%nat
+                  /\ reach t' = Nat.min (N.to_nat H) (reach t - N.to_nat n + List.length R))
+  /\ rows_equiv (N.to_nat W) R
+       (wrap (N.to_nat W) (map lt (text_prefix ls))
+          ++ (if bottom_padded ls then repeat [] (N.to_nat sh) else [])
+          ++ wrap (N.to_nat W) (map lt (from_bar ls)))
+  /\ List.length R = N.to_nat (visual_line_count ls W + (if bottom_padded ls then sh else 0)).
+Proof. exact draw_to_term_spec_bottom_full. Qed.
+Print Assumptions C19_bottom_draw_exact.
+
+(** (c) for MultiProgress: along EVERY history of the system model (any bars, members or not, any
+    calls - valid in the sense of MultiSpec.hist_ok or not -, any alignment changes, no I/O failures),
+    after every call the last_line_count of the multi draw target is at most H + the padding rows
+    counted by the last draw_to_term call on it ([hist_shift]: ghost, TermBottomMulti.v); with Top
+    alignment throughout it is at most H: the managed region never exceeds the terminal height *)
+Theorem C19_multi_rows_bounded : forall (W H : N) (s : sys) (ops : list (N * op)),
+  target_n (ms_target (s_mp s)) <= H ->
+  let s' := MultiSpec.run W H nofail s ops in
+  target_n (ms_target (s_mp s')) <= H + hist_shift W H s ops 0
+  /\ (TopAl (s_mp s) -> Forall (fun x => snd x <> OSetAlign Bottom) ops ->
+      target_n (ms_target (s_mp s')) <= H).
+Proof. intros W H s ops. exact (multi_rows_bounded_full W H ops s). Qed.
+Print Assumptions C19_multi_rows_bounded.
+
+(** the ghost advances call by call by [op_shift] = the fold of [act_shift] over the MultiState
+    method calls of the public call (MultiSpec.op_actions, C02_step_calls) *)
+Theorem C19_multi_shift_ghost : forall (W H : N) (s : sys) (ops : list (N * op)) (sh now : N) (o : op),
+  hist_shift W H s (ops ++ [(now, o)]) sh
+  = op_shift W H (MultiSpec.run W H nofail s ops) now o (hist_shift W H s ops sh).
+Proof. intros W H s ops sh now o. exact (hist_shift_snoc W H ops s sh now o). Qed.
+Print Assumptions C19_multi_shift_ghost.
+
+(* ------------------------------------------------------------------ non-vacuity: Bottom alignment *)
+(** the hypotheses of C19_bottom_draw_exact hold for a non-trivial state: 4x3 terminal, the frame
+    AAAA / BBBB on the screen, cursor wrap-pending on its last row; the new frame is the single
+    Bar line B: one blank row, then B *)
+Example C19_bottom_draw_exact_nonvacuous :
+  let t0 := app_state [t "AAAA"] (t "BBBB") 0 1 in
+  let ls := [mkline KBar (t "B")] in
+  ready 4 3 ([] ++ [t "AAAA"; t "BBBB"]) t0 /\ (2 <= reach t0)%nat /\ t_col t0 <> 0%nat
+  /\ visual_line_count ls 4 < 2 /\ bar_rows ls 4 <= 3
+  /\ all_rows (run_ops 4 3 t0 (fst (fst (draw_to_term ls 2 Bottom false 4 3)))) = [[]; t "B   "]
+  /\ snd (fst (draw_to_term ls 2 Bottom false 4 3)) = 2.
+Proof.
+  cbv zeta. split; [apply (ready_edge 4 3 _ [t "AAAA"] (t "BBBB") 0 1); [reflexivity | reflexivity | vm_compute; lia]|].
+  vm_compute. repeat split; try lia; discriminate.
+Qed.
+
+Definition bottom_bars : list (option N * fin * list tpart * tinit) :=
+  [(None, FAndLeave, [PLit (t "A")], IHidden); (None, FAndLeave, [PLit (t "B")], IHidden);
+   (None, FAndLeave, [PLit (t "C")], IHidden)].
+
+Definition screen_after (c : syscase) (k : nat) : list (list N) :=
+  all_rows (run_ops (N.to_nat (c_W c)) (N.to_nat (c_H c)) term_init
+              (List.concat (snd (run_sys (c_W c) (c_H c) (case_init c) (firstn k (c_ops c)))))).
+Definition count_after (c : syscase) (k : nat) : N :=
+  target_n (ms_target (s_mp (fst (run_sys (c_W c) (c_H c) (case_init c) (firstn k (c_ops c)))))).
+
+(** the witness of the defect fixed by 951c29f, on Sys.v + Term.v (W = 40): Bottom; add a, b, c;
+    tick each; remove(a); b.finish_and_clear(); c.println("x"); c.tick(): the printed line is above the
+    padding and survives the next draw *)
+Definition bottom_println_case : syscase :=
+  mkcase 40 10 [] None (ITerm None) bottom_bars
+    [(1, OSetAlign Bottom); (2, OInsert BEnd 0); (3, OInsert BEnd 1); (4, OInsert BEnd 2);
+     (5, OTick 0); (6, OTick 1); (7, OTick 2); (8, ORemove 0); (9, OFinish 1 FAndClear);
+     (10, OPrintln 2 (t "x")); (11, OTick 2)] [].
+
+Example C19_bottom_println_witness :
+  screen_after bottom_println_case 7 = [t "A"; t "B"; pad 40 (t "C")]
+  /\ screen_after bottom_println_case 8 = [[]; t "B"; pad 40 (t "C")]
+  /\ screen_after bottom_println_case 9 = [[]; []; pad 40 (t "C")]
+  /\ screen_after bottom_println_case 10 = [t "x"; []; pad 40 (t "C")]
+  /\ screen_after bottom_println_case 11 = [t "x"; []; pad 40 (t "C")]
+  /\ map (count_after bottom_println_case) [7; 8; 9; 10; 11]%nat = [3; 3; 3; 2; 2]
+  /\ map (fun k => hist_shift 40 10 (case_init bottom_println_case)
+                     (firstn k (c_ops bottom_println_case)) 0) [7; 8; 9; 10; 11]%nat = [0; 1; 2; 1; 1].
+Proof. vm_compute. repeat split. Qed.
+
+(** the witness of the defect fixed by 8b11f76: Bottom; add a, b; tick each; both finish_and_clear
+    (an EMPTY frame: the region is padded, the cursor is on the row below it and cursor_below says
+    so); two more empty frames do not move anything (no drift); a new bar c is painted at the
+    bottom of the same two-row region; clear() blanks it *)
+Definition bottom_empty_frame_case : syscase :=
+  mkcase 40 10 [] None (ITerm None) bottom_bars
+    [(1, OSetAlign Bottom); (2, OInsert BEnd 0); (3, OInsert BEnd 1);
+     (5, OTick 0); (6, OTick 1); (8, OFinish 0 FAndClear); (9, OFinish 1 FAndClear);
+     (10, OTick 1); (11, OTick 1); (12, OInsert BEnd 2); (13, OTick 2); (14, OMClear)] [].
+
+Example C19_bottom_empty_frame_witness :
+  screen_after bottom_empty_frame_case 5 = [t "A"; pad 40 (t "B")]
+  /\ screen_after bottom_empty_frame_case 6 = [[]; pad 40 (t "B")]
+  /\ screen_after bottom_empty_frame_case 7 = [[]; []; []]
+  /\ screen_after bottom_empty_frame_case 9 = [[]; []; []]
+  /\ screen_after bottom_empty_frame_case 11 = [[]; pad 40 (t "C"); []]
+  /\ screen_after bottom_empty_frame_case 12 = [[]; []; []]
+  /\ map (count_after bottom_empty_frame_case) [5; 6; 7; 8; 9; 10; 11; 12]%nat = [2; 2; 2; 2; 2; 2; 2; 2]
+  /\ tt_below (match ms_target (s_mp (fst (run_sys 40 10 (case_init bottom_empty_frame_case)
+                                             (firstn 7 (c_ops bottom_empty_frame_case))))) with
+               | TTerm tg => tg | _ => new_ttarget None 0 end) = true.
+Proof. vm_compute. repeat split. Qed.
+
+(** C19_multi_rows_bounded is not vacuous: both witness histories start from last_line_count = 0,
+    the first one is under Bottom alignment (ghost 1 at the end, count 2 <= 10 + 1), and a Top
+    history satisfies the hypotheses of the second clause *)
+Example C19_multi_rows_bounded_nonvacuous :
+  target_n (ms_target (s_mp (case_init bottom_println_case))) <= 10
+  /\ TopAl (s_mp (case_init bottom_println_case))
+  /\ Forall (fun x => snd x <> OSetAlign Bottom) (skipn 1 (c_ops bottom_println_case)).
+Proof.
+  split; [vm_compute; discriminate|]. split.
+  - split; [reflexivity|]. intros tg E. vm_compute in E. injection E as <-. reflexivity.
+  - vm_compute. repeat constructor; discriminate.
+Qed.
+
+(** (d) at the level of the row COUNTERS, for MultiProgress WITHOUT the Fits proviso - partial (name):
+    Top alignment, no dropped bars (no zombie rows), no I/O failures, every other call allowed
+    (add/insert/remove, println, suspend, clear, finish*, ... on any number of bars).  After every
+    history last_line_count of the multi target is EXACTLY the number of rows of the Bar lines the
+    last attempted draw painted (P = the maximal fitting prefix of its line vector [hist_frame],
+    at most H rows), zombie_lines_count = 0, hence the next draw erases exactly the rows painted
+    by the previous one - also when frames are taller than the terminal.
+    MISSING for the full clause (see docs/C19.md): the terminal side (that those rows are where
+    the cursor-up reaches: screen invariant, proved under FitsAll in MultiScreenProofs.v only),
+    histories with dropped bars (Keep/Clear of zombie rows), Bottom alignment. *)
+Theorem C19_multi_erase_count_partial : forall (W H : N) (s : sys) (ops : list (N * op)),
+  NoZ (s_mp s) -> TopAl (s_mp s) -> target_n (ms_target (s_mp s)) = 0 ->
+  Forall (fun x => quiet_op (snd x)) ops ->
+  let m' := s_mp (MultiSpec.run W H nofail s ops) in
+  let P := painted (hist_frame W H s ops []) W H 0 in
+  target_n (ms_target m') = bar_rows P W /\ bar_rows P W <= H
+  /\ ms_zombie_lines m' = 0
+  /\ (forall extra, MultiSpec.ms_erase_n m' extra = bar_rows P W).
+Proof. intros W H s ops. exact (multi_erase_count_full W H ops s). Qed.
+Print Assumptions C19_multi_erase_count_partial.
+
+(** non-vacuity: 3x2 terminal, three one-row bars (frame taller than the terminal), a println and
+    a removal: the hypotheses hold; the last frame was x ++ [A; B; C] cut to x, A, B (count 2), after
+    remove(a) it is [B; C] (count 2) *)
+Definition tall_multi_case : syscase :=
+  mkcase 3 2 [] None (ITerm None) bottom_bars
+    [(1, OInsert BEnd 0); (2, OInsert BEnd 1); (3, OInsert BEnd 2); (4, OTick 0); (5, OTick 1);
+     (6, OTick 2); (7, OPrintln 1 (t "x")); (8, ORemove 0); (9, OMClear)] [].
+
+Example C19_multi_erase_count_nonvacuous :
+  NoZ (s_mp (case_init tall_multi_case)) /\ TopAl (s_mp (case_init tall_multi_case))
+  /\ target_n (ms_target (s_mp (case_init tall_multi_case))) = 0
+  /\ Forall (fun x => quiet_op (snd x)) (c_ops tall_multi_case)
+  /\ map (fun k => map lt (hist_frame 3 2 (case_init tall_multi_case) (firstn k (c_ops tall_multi_case)) []))
+         [6; 7; 8; 9]%nat
+     = [[t "A"; t "B"; t "C"]; [t "x"; t "A"; t "B"; t "C"]; [t "B"; t "C"]; []]
+  /\ map (count_after tall_multi_case) [6; 7; 8; 9]%nat = [2; 2; 2; 0].
+Proof.
+  split; [split; [reflexivity | constructor]|]. split.
+  { split; [reflexivity|]. intros tg E. vm_compute in E. injection E as <-. reflexivity. }
+  split; [reflexivity|]. split.
+  { unfold tall_multi_case, c_ops. repeat (apply Forall_cons; [split; [discriminate | intros b; discriminate]|]). constructor. }
+  vm_compute. split; reflexivity.
+Qed.
